@@ -100,3 +100,17 @@ def _plain(v: Any) -> Any:
     if isinstance(v, Str) and v.is_const():
         return v.const()
     return repr(v)
+
+
+def make_instance(interp, env, cls: str, args: List[V], label: str = "self", kwargs: Optional[Dict[str, V]] = None) -> ObjV:
+    """An instance of an in-repo class with its constructor evaluated (so attribute names are found,
+    not assumed). Must be called from inside an explore() setup callback."""
+    obj = ObjV(cls, {}, label)
+    r = env.repo.lookup_method(cls, "__init__")
+    if r is not None:
+        interp.call_function(r[0].module, r[1], [obj] + list(args), dict(kwargs or {}), r[0].qual)
+    return obj
+
+
+def is_visit_of(v: Any, path: str) -> bool:
+    return isinstance(v, Sym) and v.op == "visit" and getattr(v.args[1], "path", None) == path
